@@ -659,6 +659,10 @@ class MapLoopSpec:
     def havoc(self, L, env, names):
         return None
 
+    def sums(self, L, env):
+        """summand arrays f of the fold facts  acc == SUM(done, f): the engine unfolds the definition of SUM for them"""
+        return []
+
 
 def _typed_havoc(L, name, v):
     c = ctx()
@@ -698,6 +702,8 @@ class MapLoop:
         # invariant on entry (A-obligation), with the pre-loop values
         env0 = dict(env)
         self.env0 = env0
+        for f in self.spec.sums(self, env0):
+            c.assume(SUM(EMPTY, f) == 0)                      # definition of a finite sum: empty set
         for n, f in self.spec.scal(self, env0, EMPTY):
             c.ob('#%s:init/%s' % (self._short(), n), f, kind='A')
         custom = self.spec.havoc(self, env, names) or {}
@@ -735,6 +741,8 @@ class MapLoop:
     def preserved(self, env):
         c = ctx()
         done2 = z3.Store(self.done, self.k, True)
+        for f in self.spec.sums(self, env):                   # definition of a finite sum: one more (new) element
+            c.assume(SUM(done2, f) == SUM(self.done, f) + z3.Select(f, self.k))
         for n, f in self.spec.scal(self, env, done2):
             c.ob('#%s:preserved/%s' % (self._short(), n), f, kind='A')
         for n, f in self.spec.pd(self, env, self.k):
